@@ -2,6 +2,7 @@ package checks
 
 import (
 	"fmt"
+	"strings"
 
 	"github.com/snower/slock/protocol"
 	"verif/explore"
@@ -13,6 +14,9 @@ import (
 // immediately before its operation, and after every step the key carries the value a sequential
 // interpreter computes (while the key is held).
 func OracleC15(r *SeqRun) []explore.Violation {
+	if r.Spec.Cfg.MissingAcks > 0 {
+		return oracleC15Refused(r)
+	}
 	m := refmodel.New()
 	val := map[byte]refmodel.Val{}
 	get := func(k byte) refmodel.Val {
@@ -130,6 +134,178 @@ func OracleC15(r *SeqRun) []explore.Violation {
 	return vs
 }
 
+// oracleC15Refused: the requests of client b need follower acknowledgements that never come, so every one of them
+// that is admitted waits, is REFUSED one second later and must leave the register as if it had never been sent.
+// Client a's requests (LockId 1) are followed by the sequential model alone. While a request of b is pending the
+// register is left open (the statement does not say what others see meanwhile); whenever none is pending and a
+// holds the key, the register must be what a's successful operations alone compute, and when nothing at all
+// touched the register between b's request and its refusal the raw frame must be byte-identical (modulo the
+// operation byte) to the one from before.
+func oracleC15Refused(r *SeqRun) []explore.Violation {
+	m := refmodel.New()
+	val := refmodel.NoVal()
+	clean := true
+	type pend struct {
+		raw      []byte // register frame just before the request
+		had      bool   // a held the key then
+		touched  bool   // some other value operation was applied since
+		typ      byte
+		touchers string
+	}
+	pending := map[byte]*pend{}
+	data := map[byte][]byte{}
+	var vs []explore.Violation
+	add := func(sig, msg string) { vs = append(vs, explore.Violation{Sig: "C15:" + sig, Msg: msg}) }
+	var key [16]byte
+	key[15] = 1
+	rawOf := func(s *hapi.Snapshot) []byte {
+		if s == nil {
+			return nil
+		}
+		if ks := s.Key(0, key); ks != nil {
+			return ks.Value
+		}
+		return nil
+	}
+	var prevRaw []byte
+	var refused []string // refused requests of b that met other operations, as "<b's operation>/<the others'>"
+	opName := func(d []byte) string {
+		if len(d) < 6 {
+			return "?"
+		}
+		n := []string{"SET", "UNSET", "INCR", "APPEND", "SHIFT", "EXECUTE", "PIPELINE", "PUSH", "POP"}
+		t := int(d[4] & 0x3f)
+		s := "?"
+		if t < len(n) {
+			s = n[t]
+		}
+		if t == 6 && len(d) >= 12 {
+			s += "[" + n[int(d[10]&0x3f)%len(n)] + "]"
+		}
+		if d[5]&0x10 != 0 {
+			s += "+props"
+		}
+		return s
+	}
+	held := func() bool { k := m.Keys[1]; return k != nil && k.DepthSum() > 0 }
+	for si, st := range r.Steps {
+		where := fmt.Sprintf("step %d (%s)", si+1, st.Op.String())
+		var want []refmodel.Reply
+		if st.Op.Cmd != nil {
+			if st.Op.Cmd.Data != nil {
+				data[st.Op.Cmd.Req] = st.Op.Cmd.Data
+			}
+			if st.Op.Client == 0 {
+				if st.Op.Cmd.Type == 1 {
+					want = m.Lock("a", toRef(st.Op.Cmd))
+				} else {
+					want = m.Unlock("a", toRef(st.Op.Cmd))
+				}
+			} else {
+				answered := false
+				for _, e := range st.Events {
+					if e.Client == "b" && e.Req == st.Op.Cmd.Req {
+						answered = true
+						if e.Result == 0 {
+							return vs // granted without acknowledgements: C11's ground
+						}
+					}
+				}
+				if !answered {
+					pending[st.Op.Cmd.Req] = &pend{raw: prevRaw, had: held(), typ: st.Op.Cmd.Data[4]}
+				}
+			}
+		}
+		for _, e := range st.Events {
+			if e.Client == "b" {
+				if p := pending[e.Req]; p != nil {
+					if e.Result == 0 {
+						return vs
+					}
+					delete(pending, e.Req)
+					if p.touched {
+						refused = append(refused, opName(data[e.Req])+"/"+p.touchers)
+					}
+					if p.had && held() && !p.touched && st.Snap != nil {
+						now := rawOf(st.Snap)
+						same := len(now) == len(p.raw) && (len(now) < 6 || string(now[5:]) == string(p.raw[5:]))
+						bv, _ := refmodel.DecodeFrame(p.raw)
+						nv, err := refmodel.DecodeFrame(now)
+						if err != nil || !bv.Equal(nv) || !same {
+							add("refused-changes-register:"+opName(data[e.Req]), fmt.Sprintf("%s: the acknowledgement-required %s of b:r%d is refused (%s) and nobody else touched the register, yet it went from frame %x (%s) before the request to %x (%s) after the refusal", where, opName(data[e.Req]), e.Req, hapi.ResultName(e.Result), p.raw, bv, now, nv))
+							return vs
+						}
+					}
+				}
+				continue
+			}
+			if len(want) == 0 {
+				return vs
+			}
+			w := want[0]
+			want = want[1:]
+			if w.Client != e.Client || w.Req != e.Req || w.Result != e.Result {
+				return vs
+			}
+			before := val
+			if clean && e.Cmd == 1 && e.Result == 0 && len(pending) == 0 {
+				before = refmodel.NoVal()
+			}
+			if len(pending) > 0 {
+				before = refmodel.Val{Unknown: true}
+			} else {
+				got, err := refmodel.DecodeFrame(e.Data)
+				if err != nil {
+					add("malformed-value", fmt.Sprintf("%s: reply a:r%d carries a malformed value frame %x: %v", where, e.Req, e.Data, err))
+					return vs
+				}
+				if !before.Equal(got) {
+					add("reply-not-value-before", fmt.Sprintf("%s: reply a:r%d=%s carries value %s, the value immediately before the operation was %s (every acknowledgement-required request of b had been refused by then)", where, e.Req, hapi.ResultName(e.Result), got, before))
+					return vs
+				}
+			}
+			if w.Applied {
+				if d, ok := data[e.Req]; ok {
+					if clean && e.Cmd == 1 && e.Result == 0 && len(pending) == 0 {
+						val = refmodel.NoVal()
+					}
+					val = refmodel.ApplyFrame(val, d)
+					for _, p := range pending {
+						p.touched = true
+						if !strings.Contains(p.touchers, opName(d)) {
+							p.touchers += opName(d) + ","
+						}
+					}
+				}
+			}
+			if !held() {
+				val = refmodel.Val{Unknown: true}
+				clean = len(pending) == 0
+			} else {
+				clean = false
+			}
+		}
+		if !held() && len(pending) == 0 {
+			clean = true
+		}
+		if st.Snap != nil {
+			prevRaw = rawOf(st.Snap)
+			if held() && len(pending) == 0 && !val.Unknown {
+				got, err := refmodel.DecodeFrame(prevRaw)
+				if err != nil {
+					add("malformed-value", fmt.Sprintf("%s: key 1 carries a malformed value frame %x: %v", where, prevRaw, err))
+					return vs
+				}
+				if !val.Equal(got) {
+					add("refused-undoes-others:"+strings.Join(refused, ";"), fmt.Sprintf("%s: every acknowledgement-required request of b has been refused (%s); key 1 carries value %s, the successful operations of a alone compute %s", where, strings.Join(refused, ";"), got, val))
+					return vs
+				}
+			}
+		}
+	}
+	return vs
+}
+
 // freeVal: the value of a key nobody holds is not defined (refusals answered meanwhile may carry anything);
 // freedClean says whether the next grant must start from no value: nobody holds and nobody waits. With requests
 // still queued the statement leaves open whether the next holder inherits the value.
@@ -234,7 +410,24 @@ func c15Specs(quick bool) []*SeqSpec {
 		pa = append(pa, op(0, withData(L(0, 1, 1, 0, 9, 1, 5), dd)))
 	}
 	pa = append(pa, op(0, U(0, 1, 1)))
+	// acknowledgement-required operations that are REFUSED (the follower acknowledgements never come, the request ends
+	// by its wait timeout one second later): the register must be what it was before the request, whatever the
+	// operation, and later operations of other LockIds must survive the roll-back
+	pipeI := vd(protocol.NewLockCommandDataPipelineData([]*protocol.LockCommandData{protocol.NewLockCommandDataIncrData(3)}))
+	pipeA := vd(protocol.NewLockCommandDataPipelineData([]*protocol.LockCommandData{protocol.NewLockCommandDataAppendString("x")}))
+	nack := []SeqOp{
+		op(0, withData(L(0, 1, 1, 0, 60, 5, 3), set0)),
+		op(0, withData(L(0, 1, 1, 0, 60, 5, 3), inc)),
+		op(0, withData(L(0, 1, 1, 0, 60, 5, 3), vd(protocol.NewLockCommandDataSetStringWithProperty("abcdef", props)))),
+	}
+	for _, dd := range [][]byte{set0, appx, inc, pipeI, pipeA, vd(protocol.NewLockCommandDataPushString("b")), vd(protocol.NewLockCommandDataShiftData(2)), vd(protocol.NewLockCommandDataPopData(1)), vd(protocol.NewLockCommandDataUnsetData())} {
+		nack = append(nack, op(1, withTF(withData(L(0, 1, 2, 1, 9, 5, 0), dd), tfAck)))
+	}
+	nack = append(nack, tick(2500*ms), op(0, U(0, 1, 1)))
+	nackCfg := cfg
+	nackCfg.MissingAcks = 1
 	return []*SeqSpec{{Name: "value-register", Cfg: cfg, Alphabet: a, Depth: d, MaxStates: 300000},
+		{Name: "value-register-ack-refused", Cfg: nackCfg, Alphabet: nack, Depth: d, MaxStates: 300000, NoDedupe: true},
 		{Name: "value-register-acked", Cfg: cfg, Alphabet: ack, Depth: d + 1, MaxStates: 300000},
 		{Name: "value-register-property-headers", Cfg: cfg, Alphabet: pa, Depth: d, MaxStates: 300000}}
 }
